@@ -166,7 +166,7 @@ def run(ctx):
             if phases[i] == 'hostkey':
                 ph = [e for e in r['log'] if e[1] == i and e[2] == 'phase']
                 obs_hk.append(ph[0][5][0] if ph and ph[0][5] else '?')
-        obs_gex = [(a, mn, pf, mx) for (_i, a, mn, pf, mx) in r['gex_requests']]
+        obs_gex = [(a, mn, pf, mx) for (_i, a, mn, pf, mx) in r['gex_requests'] if r['phases'].get(_i) == 'gex']
         gstyle = c['gex_style']
         ans = {'all': 'fun r => match r with (mn, pf, mx) => GSize (Z.max mn (Z.min mx pf)) end',
                'min2048': 'fun r => match r with (mn, pf, mx) => if 2048 <=? mx then GSize (Z.max 2048 pf) else GNoSize end',
